@@ -91,6 +91,35 @@ func findWalker(c *Check, rule string) *walkerInfo {
 			}
 		}
 	}
+	// the completion handler is the function the routine hands the completion to: a helper that only records
+	// it (`recordCompletionLocked`) is lifted to its only caller that also takes the completion
+	for i := 0; i < 3 && w.OnComplete != nil; i++ {
+		var up *ssa.Function
+		multi := false
+		for _, cs := range c.G.CallersOf(w.OnComplete) {
+			p := engine.TopFunc(cs.Parent())
+			if p == nil || p == w.OnComplete || !engine.InPackage(p, "dag") {
+				continue
+			}
+			takes := false
+			for _, prm := range p.Params {
+				if engine.TypeKey(prm.Type()) == "dag.Completion" {
+					takes = true
+				}
+			}
+			if !takes {
+				continue
+			}
+			if up != nil && up != p {
+				multi = true
+			}
+			up = p
+		}
+		if up == nil || multi {
+			break
+		}
+		w.OnComplete = up
+	}
 	// the cancel function of the walker is the walker's own method through which the channel is closed: a
 	// closer that lives on the per-node record (or behind sync.Once.Do) is lifted to its only caller
 	for i := 0; i < 4 && w.CancelNode != nil; i++ {
@@ -469,7 +498,36 @@ func spawnOnlyForSelected(fn *ssa.Function, at ssa.Instruction) bool {
 		return mapFilledOnlyUnderSelected(fn, lk.X, 0)
 	}
 	r, _ := engine.PathExists(fn, nil, engine.IsInstr(at), engine.PathQuery{CutEdge: engine.CutEdgesWhere(func(a engine.Atom) bool { return isSelectedTrue(a) || registered(a) })})
-	return !r
+	if !r {
+		return true
+	}
+	// the instruction sits in a loop over a local list that is appended to only for selected nodes
+	// (the routines to start are collected first and counted with one Add)
+	if lp := engine.LoopOf(at); lp != nil && lp.RangedValue() != nil {
+		if _, isSlice := lp.RangedValue().Type().Underlying().(*types.Slice); isSlice {
+			n, all := 0, true
+			for _, b := range fn.Blocks {
+				for _, in := range b.Instrs {
+					call, ok := in.(*ssa.Call)
+					if !ok || in == at {
+						continue
+					}
+					bi, isB := call.Call.Value.(*ssa.Builtin)
+					if !isB || bi.Name() != "append" || lp.Body[call.Block()] || !sameSlice(call, lp.RangedValue()) {
+						continue
+					}
+					n++
+					if alp := engine.LoopOf(call); alp == nil || !alp.IsFullRange() || !spawnOnlyForSelected(fn, call) {
+						all = false
+					}
+				}
+			}
+			if n > 0 && all {
+				return true
+			}
+		}
+	}
+	return false
 }
 
 // mapFilledOnlyUnderSelected: the map value is a fresh map of fn whose every update happens under
